@@ -834,7 +834,6 @@ impl Program {
     /// known findings under C01), so that layout exploration continues behind them:
     /// * a packed / pragma-packed struct that (transitively, by value) contains an explicitly
     ///   aligned member or type (E0588 / E0587);
-    /// * bit-fields inside unions (accessors call unsafe `__BindgenUnionField` methods, E0133).
     /// Returns the number of constructs removed.
     pub fn strip_unrepresentable(&mut self) -> usize {
         let mut removed = 0usize;
@@ -952,13 +951,6 @@ impl Program {
             for f in c.fields.iter_mut() {
                 if packed_here && f.align.is_some() {
                     f.align = None;
-                    *removed += 1;
-                }
-                if c.is_union && f.bits.is_some() {
-                    f.bits = None;
-                    if f.name.is_empty() {
-                        f.name = "was_bitfield".into();
-                    }
                     *removed += 1;
                 }
                 match &mut f.ty {
